@@ -130,8 +130,10 @@ class Sched:
             if t["done"] or op is None:
                 continue
             k = op["kind"]
-            if k in ("start", "put", "step", "terminate"):
+            if k in ("start", "step", "terminate"):
                 out.append(tid)
+            elif k == "put" and (op["q"].maxsize <= 0 or len(op["q"].items) < op["q"].maxsize):
+                out.append(tid)  # a bounded queue blocks the producer while it is full
             elif k == "get" and op["q"].items:
                 out.append(tid)
             elif k == "join" and all(self.threads[x]["done"] for x in op["targets"]):
@@ -208,8 +210,9 @@ def _sched():
 class VQueue:
     _next = [0]
 
-    def __init__(self):
+    def __init__(self, maxsize=0):
         self.items = []
+        self.maxsize = int(maxsize or 0)
         VQueue._next[0] += 1
         self.qid = VQueue._next[0]
         _sched().queues[self.qid] = self
@@ -238,8 +241,8 @@ class VManager:
     def __exit__(self, *a):
         return None
 
-    def Queue(self):
-        return VQueue()
+    def Queue(self, maxsize=0):
+        return VQueue(maxsize)
 
 
 class VProcess:
@@ -276,18 +279,46 @@ class VProcess:
             s.park(dict(kind="terminate", target=self.tid))
 
 
+class VAsyncResult:
+    def __init__(self, tids, res, errs, order):
+        self.tids, self.res, self.errs, self.order = tids, res, errs, order
+
+    def wait(self, timeout=None):
+        _sched().park(dict(kind="join", targets=self.tids))
+
+    def ready(self):
+        s = _sched()
+        return all(s.threads[t]["done"] for t in self.tids)
+
+    def get(self, timeout=None):
+        self.wait()
+        if self.errs:
+            raise self.errs[self.order[0]]  # the failure that arrived first
+        return [self.res[k] for k in range(len(self.tids))]
+
+
 class VPool:
     def __init__(self, processes=None, *a, **k):
         self.n = processes or 1
+        self.spawned = []
 
     def __enter__(self):
         return self
 
     def __exit__(self, *a):
+        # Pool.__exit__ is terminate(): tasks that have not finished are killed
+        s = _sched()
+        for tid in self.spawned:
+            if not s.threads[tid]["done"]:
+                s.park(dict(kind="terminate", target=tid))
         return None
 
     # ---- thread mode
     def map(self, func, items):
+        return self.map_async(func, items).get()
+
+    def map_async(self, func, items, chunksize=None, callback=None, error_callback=None):
+        """Tasks start running at once (as logical threads); get()/wait() join them."""
         s = _sched()
         res, errs, order = {}, {}, []
         fblob = pickle.dumps(func)
@@ -304,10 +335,9 @@ class VPool:
                     order.append(k)
 
             tids.append(s.spawn(task, f"task{k}"))
-        s.park(dict(kind="join", targets=tids))
-        if errs:
-            raise errs[order[0]]  # the failure that arrived first
-        return [res[k] for k in range(len(tids))]
+        self.spawned.extend(tids)
+        s.park(dict(kind="step"))  # the tasks are now runnable alongside the caller
+        return VAsyncResult(tids, res, errs, order)
 
     # ---- order mode
     def imap_unordered(self, func, iterable):
